@@ -335,6 +335,36 @@ theorem lcp_spec' (e a b : NodeLabel) (hae : a ≠ e) (hbe : b ≠ e)
           rw [bits_getElem, bits_getElem]
           simpa using h
 
+theorem getPrefix_of_ge (a : NodeLabel) (n : Nat) (hn : 256 ≤ n) : a.getPrefix n = a := by
+  simp [getPrefix, hn]
+
+theorem bits_getPrefix_le (a : NodeLabel) (n : Nat) (hn : n ≤ a.len) (ha : a.len ≤ 256) :
+    (a.getPrefix n).bits = a.bits.take n := by
+  by_cases h : n < 256
+  · simp only [bits, getPrefix_len a n h, bits256_getPrefix a n h]
+    rw [List.take_append_of_le_length (by simp [bits256_length]; omega)]
+    simp [List.take_take, Nat.min_eq_left hn]
+  · have : n = 256 := by omega
+    subst this
+    have : a.len = 256 := by omega
+    rw [getPrefix_of_ge a 256 (Nat.le_refl _)]
+    simp [bits, this, List.take_take]
+
+theorem lcp_bits (e a b : NodeLabel) (hae : a ≠ e) (hbe : b ≠ e)
+    (ha : a.len ≤ 256) (hb : b.len ≤ 256) :
+    (lcp e a b).bits = BitStr.commonPrefix a.bits b.bits := by
+  obtain ⟨r, hr1, _, hr3, hr4⟩ := lcp_spec' e a b hae hbe ha hb
+  rw [hr3, hr4]
+  exact bits_getPrefix_le a r hr1 ha
+
+theorem lcp_len_le (e a b : NodeLabel) (hae : a ≠ e) (hbe : b ≠ e)
+    (ha : a.len ≤ 256) (hb : b.len ≤ 256) : (lcp e a b).len ≤ a.len := by
+  obtain ⟨r, hr1, _, hr3, _⟩ := lcp_spec' e a b hae hbe ha hb
+  rw [hr3]
+  by_cases h : r < 256
+  · rw [getPrefix_len a r h]; exact hr1
+  · rw [getPrefix_of_ge a r (by omega)]; exact Nat.le_refl _
+
 theorem getPrefix_eq_iff (a b : NodeLabel) (n : Nat) (hn : n < 256) :
     a.getPrefix n = b.getPrefix n ↔ ∀ i, i < n → bitB a.val i = bitB b.val i := by
   constructor
